@@ -19,7 +19,7 @@ OUT = re.compile(r"^\(ok (.*)\) t=\[([^\]]*)\] o=")
 
 def explore(ctx):
     h = common.hexs
-    n = 1500 if ctx.quick else 60000
+    n = 6000 if ctx.quick else 300000
     per = 25
     cases = []
     dist = {}
